@@ -509,6 +509,13 @@ func (bc *boundsChecker) prove(s *boundSite) (proof string, why string) {
 							return "", fmt.Sprintf("the call %s at %s passes %s, whose length is not bounded below there (%s)", wire.Canon(call.Fun), bc.p.Pos(call.Pos()), wire.Canon(arg), w)
 						}
 						proofs = append(proofs, pr)
+					case *ast.BasicLit:
+						// a string literal: its length is in the source
+						if tv := bc.info.Types[arg]; tv.Value != nil && tv.Value.Kind() == constant.String && cs.idx == nil && len(constant.StringVal(tv.Value)) > cs.k {
+							proofs = append(proofs, fmt.Sprintf("literal of length %d at %s", len(constant.StringVal(tv.Value)), bc.p.Pos(call.Pos())))
+							continue
+						}
+						return "", fmt.Sprintf("the call %s at %s passes %s, which can be shorter than %d element(s)", wire.Canon(call.Fun), bc.p.Pos(call.Pos()), wire.Canon(arg), s.k+1)
 					default:
 						return "", fmt.Sprintf("the call %s at %s passes %s, which can be shorter than %d element(s)", wire.Canon(call.Fun), bc.p.Pos(call.Pos()), wire.Canon(arg), s.k+1)
 					}
@@ -916,6 +923,12 @@ func checkParserBounds(c *core.Ctx, p *load.Prog, rule string) {
 			default:
 				return true
 			}
+			// the recovery index nextValid[0][0], wherever the recovery now
+			// lives: the list comes from nextValidBytes, and that it is not empty
+			// at an inner node is rule R5
+			if bc.fromNextValidBytes(fd, s.x) {
+				return true
+			}
 			nSites++
 			proof, why := bc.prove(s)
 			if proof == "" && bc.builtLocally(fd, s.x) {
@@ -927,6 +940,10 @@ func checkParserBounds(c *core.Ctx, p *load.Prog, rule string) {
 			}
 			if proof == "" && bc.fromSpreadExpect(fd, s.x) {
 				c.Undecide("%s: %s at %s indexes the result of an expectNext-style call whose kinds are passed as a slice (kinds...) the rule cannot size", name, s.what, p.Pos(s.node.Pos()))
+				return true
+			}
+			if proof == "" && bc.fromFuncValue(fd, s.x) {
+				c.Undecide("%s: %s at %s indexes what a call through a function value returned (a combinator, a table entry): how many elements it returns cannot be read off the call", name, s.what, p.Pos(s.node.Pos()))
 				return true
 			}
 			counts[name+"\x00"+s.what]++
@@ -981,7 +998,19 @@ func (bc *boundsChecker) builtLocally(fd *ast.FuncDecl, x ast.Expr) bool {
 					continue
 				}
 				defs++
-				if len(y.Lhs) != len(y.Rhs) || !bc.freshSlice(y.Rhs[i], o) {
+				if len(y.Lhs) != len(y.Rhs) {
+					// v, ok = helper(v, …): a package function that builds what
+					// it returns (append, make, literal, nil) on every return
+					if len(y.Rhs) == 1 {
+						if call, isCall := ast.Unparen(y.Rhs[0]).(*ast.CallExpr); isCall && bc.builtByCallee(call, i) {
+							continue
+						}
+					}
+					local = false
+				} else if !bc.freshSlice(y.Rhs[i], o) {
+					if call, isCall := ast.Unparen(y.Rhs[i]).(*ast.CallExpr); isCall && bc.builtByCallee(call, 0) {
+						continue
+					}
 					local = false
 				}
 			}
@@ -1011,12 +1040,59 @@ func (bc *boundsChecker) freshSlice(e ast.Expr, o *types.Var) bool {
 			return len(y.Args) >= 2 && func() bool { c, isC := constInt(bc.info, y.Args[1]); return isC && c == 0 }()
 		}
 		if fn == "append" && len(y.Args) > 0 {
-			if aid, ok := ast.Unparen(y.Args[0]).(*ast.Ident); ok && bc.info.ObjectOf(aid) == types.Object(o) {
+			if aid, ok := ast.Unparen(y.Args[0]).(*ast.Ident); ok && (bc.info.ObjectOf(aid) == types.Object(o) || aid.Name == "nil") {
+				return true
+			}
+			// append([]byte{}, first)
+			if _, isLit := ast.Unparen(y.Args[0]).(*ast.CompositeLit); isLit {
 				return true
 			}
 		}
 	}
 	return false
+}
+
+// builtByCallee: call is a static call of a package function (not the
+// expectNext family, whose contract is a rule of its own) whose i-th result is,
+// on every return, nil, a composite literal, make or append: the length of
+// what it returns is a relation between program variables.
+func (bc *boundsChecker) builtByCallee(call *ast.CallExpr, i int) bool {
+	callee := load.Callee(bc.info, call)
+	if callee == nil || callee.Pkg() != bc.pkg.Types || bc.expectN[types.Object(callee)] {
+		return false
+	}
+	d := bc.p.Decl(callee)
+	if d == nil || d.Body == nil {
+		return false
+	}
+	all, any := true, false
+	ast.Inspect(d.Body, func(n ast.Node) bool {
+		switch r := n.(type) {
+		case *ast.FuncLit:
+			return false
+		case *ast.ReturnStmt:
+			if i >= len(r.Results) {
+				all = false
+				return true
+			}
+			any = true
+			switch y := ast.Unparen(r.Results[i]).(type) {
+			case *ast.CompositeLit:
+			case *ast.Ident:
+				if y.Name != "nil" {
+					all = false
+				}
+			case *ast.CallExpr:
+				if fn := wire.Canon(y.Fun); fn != "append" && fn != "make" {
+					all = false
+				}
+			default:
+				all = false
+			}
+		}
+		return true
+	})
+	return all && any
 }
 
 // fromSpreadExpect: x is defined in fd by a call with the expectNext contract
@@ -1045,4 +1121,106 @@ func (bc *boundsChecker) fromSpreadExpect(fd *ast.FuncDecl, x ast.Expr) bool {
 		return true
 	})
 	return found
+}
+
+// fromFuncValue: x is a local that is assigned the result of a call through a
+// function value, or of a package function that returns what such a call
+// returned (two levels).
+func (bc *boundsChecker) fromFuncValue(fd *ast.FuncDecl, x ast.Expr) bool {
+	id, ok := ast.Unparen(x).(*ast.Ident)
+	if !ok {
+		return false
+	}
+	o := bc.info.ObjectOf(id)
+	var dynamic func(call *ast.CallExpr, depth int) bool
+	dynamic = func(call *ast.CallExpr, depth int) bool {
+		callee := load.Callee(bc.info, call)
+		if callee == nil {
+			tv, ok := bc.info.Types[call.Fun]
+			if !ok || tv.IsType() || tv.IsBuiltin() {
+				return false
+			}
+			_, isSig := tv.Type.Underlying().(*types.Signature)
+			return isSig
+		}
+		if callee.Pkg() != bc.pkg.Types || depth >= 2 {
+			return false
+		}
+		d := bc.p.Decl(callee)
+		if d == nil || d.Body == nil {
+			return false
+		}
+		found := false
+		ast.Inspect(d.Body, func(n ast.Node) bool {
+			switch r := n.(type) {
+			case *ast.FuncLit:
+				return false
+			case *ast.ReturnStmt:
+				if len(r.Results) >= 1 {
+					if c2, ok := ast.Unparen(r.Results[0]).(*ast.CallExpr); ok && dynamic(c2, depth+1) {
+						found = true
+					}
+				}
+			}
+			return !found
+		})
+		return found
+	}
+	found := false
+	ast.Inspect(fd.Body, func(n ast.Node) bool {
+		as, ok := n.(*ast.AssignStmt)
+		if !ok || len(as.Rhs) != 1 || len(as.Lhs) == 0 {
+			return true
+		}
+		lid, ok := ast.Unparen(as.Lhs[0]).(*ast.Ident)
+		if !ok || bc.info.ObjectOf(lid) != o {
+			return true
+		}
+		if call, ok := ast.Unparen(as.Rhs[0]).(*ast.CallExpr); ok && dynamic(call, 0) {
+			found = true
+		}
+		return true
+	})
+	return found
+}
+
+// fromNextValidBytes: x is, or indexes into, a local that is only assigned the
+// result of the token tree's nextValidBytes.
+func (bc *boundsChecker) fromNextValidBytes(fd *ast.FuncDecl, x ast.Expr) bool {
+	x = ast.Unparen(x)
+	for {
+		ix, ok := x.(*ast.IndexExpr)
+		if !ok {
+			break
+		}
+		x = ast.Unparen(ix.X)
+	}
+	id, ok := x.(*ast.Ident)
+	if !ok {
+		return false
+	}
+	o := bc.info.ObjectOf(id)
+	defs, fromNV := 0, 0
+	ast.Inspect(fd.Body, func(n ast.Node) bool {
+		as, ok := n.(*ast.AssignStmt)
+		if !ok {
+			return true
+		}
+		for i, l := range as.Lhs {
+			lid, ok := ast.Unparen(l).(*ast.Ident)
+			if !ok || bc.info.ObjectOf(lid) != o {
+				continue
+			}
+			defs++
+			if len(as.Lhs) == len(as.Rhs) {
+				if call, ok := ast.Unparen(as.Rhs[i]).(*ast.CallExpr); ok {
+					if cal := load.Callee(bc.info, call); cal != nil && cal.Pkg() == bc.pkg.Types && cal.Name() == "nextValidBytes" {
+						fromNV++
+					}
+				}
+			}
+		}
+		return true
+	})
+	return defs > 0 && defs == fromNV
 }
